@@ -252,3 +252,10 @@ Example C15_example :
   let its := [(exL 1, ILabel "a"); (exL 2, IPseudo "j" ["nowhere"] (PErr (PRaw OtherExn)))]%string in
   Pall its /\ assemble_items its [] [] true = Fail (PAsm (exL 2)) /\ In (exL 2) (lines its).
 Proof. split. repeat constructor. split. vm_compute. reflexivity. right; left; reflexivity. Qed.
+
+(* ---- resolve_labels as the source has it (Gen/Guards.v): a label is bound to the running position (from 0, advanced by item.size()),
+   a second definition is refused at its line *)
+From BB Require Gen.Guards Proofs.Guards.
+Theorem C15_resolve_labels_from_source : Proofs.Guards.resolve_labels_from_source_stmt.
+Proof. exact Proofs.Guards.resolve_labels_from_source. Qed.
+Print Assumptions C15_resolve_labels_from_source.
